@@ -135,6 +135,11 @@ func ErrSubscriptionMustOnlyHaveOneRootSelection(subscriptionName ast.ByteSlice)
 	return err
 }
 
+func ErrSubscriptionRootFieldMustNotBeIntrospectionField(subscriptionName ast.ByteSlice) (err ExternalError) {
+	err.Message = fmt.Sprintf("subscription: %s must not select an introspection field as its root field", subscriptionName)
+	return err
+}
+
 func ErrFieldSelectionOnUnion(fieldName, unionName ast.ByteSlice) (err ExternalError) {
 
 	err.Message = fmt.Sprintf("cannot select field: %s on union: %s", fieldName, unionName)
